@@ -493,6 +493,67 @@ func runC07(c *Ctx) {
 		}
 		vf := vf0
 		c.ob("C07-R5", interpPkg+".TypeChecker.ValidateObjectAgainstTypeDef#required-field-null-rejected", vf.Pos(), ok, "a required field that is present but null passes validation ({\"name\": null} satisfies name: str!)")
+		// … and that null test does not sit behind "the field has no default": a default fills in absent fields
+		// only, so {"role": null} for `role: str! = "member"` must be refused too. Decided by cutting every edge on
+		// which field.Default == nil is established and asking whether a nil-edge of the looked-up value that
+		// leads to the error return is still reachable from entry.
+		okNoDefault := false
+		for _, vfx := range cands {
+			var defaults []ssa.Value
+			eachInstr(vfx, func(_ *ssa.BasicBlock, _ int, ins ssa.Instruction) {
+				switch x := ins.(type) {
+				case *ssa.UnOp:
+					if _, f, ok := fieldOf(x.X); ok && f == "Default" {
+						defaults = append(defaults, x)
+					}
+				case *ssa.Field:
+					if st, ok := x.X.Type().Underlying().(*types.Struct); ok && st.Field(x.Field).Name() == "Default" {
+						defaults = append(defaults, x)
+					}
+				}
+			})
+			cutDefaultNil := func(b *ssa.BasicBlock, si int) bool {
+				for _, d := range defaults {
+					if nilOnEdge(b, si, d) {
+						return true
+					}
+				}
+				return false
+			}
+			eachInstr(vfx, func(_ *ssa.BasicBlock, _ int, ins ssa.Instruction) {
+				lk, isL := ins.(*ssa.Lookup)
+				if !isL || !lk.CommaOk {
+					return
+				}
+				if p, isP := lk.X.(*ssa.Parameter); !isP {
+					return
+				} else if _, isM := p.Type().Underlying().(*types.Map); !isM {
+					return
+				}
+				for _, v := range extractOf(lk, 0) {
+					for _, b := range vfx.Blocks {
+						for si, s := range b.Succs {
+							if !nilOnEdge(b, si, v) {
+								continue
+							}
+							qErr := &pathQuery{fn: vfx, target: func(x ssa.Instruction) bool {
+								r, ok := x.(*ssa.Return)
+								return ok && !isNilConst(stripConv(retVals(r)[0]))
+							}, stop: func(x ssa.Instruction) bool { return isCallTo(x, interpPath+".TypeChecker.CheckType") }, cutEdge: cutDefaultNil}
+							if h, _ := qErr.from(s, 0); h == nil {
+								continue
+							}
+							// is this nil-edge's source block reachable from entry without a Default==nil edge?
+							qIn := &pathQuery{fn: vfx, cutEdge: cutDefaultNil, target: func(x ssa.Instruction) bool { return x.Block() == b }}
+							if h, _ := qIn.fromEntry(); h != nil {
+								okNoDefault = true
+							}
+						}
+					}
+				}
+			})
+		}
+		c.ob("C07-R5", interpPkg+".TypeChecker.ValidateObjectAgainstTypeDef#null-rejected-also-when-the-field-has-a-default", vf.Pos(), okNoDefault, "the null test of a required field is only reached for fields without a default: {\"role\": null} satisfies `role: str! = \"member\"` and the body sees null in a field declared non-null (a default fills in absent fields, not null ones)")
 		c.ob("C07-R5", interpPkg+".TypeChecker.ValidateObjectAgainstTypeDef#tests-required-flag", vf.Pos(), reqOK, "the Required flag of fields is never consulted")
 	}
 
@@ -803,6 +864,80 @@ func runC07(c *Ctx) {
 
 	c.rule("C07-R11", "def-use: in Interpreter.ApplyTypeDefaults every value written into the result object that is not copied from the request's own object is the result of evaluating the field's default expression in this call (EvaluateExpression), never a value kept from an earlier request: a default such as `tags: [str] = [\"new\"]` must be a new array for every request, or one request's in-place edits become the next request's 'default'")
 	freshDefaultsRule(c, "C07-R11")
+
+	c.rule("C07-R13", "EXH: CheckType descends into every type kind that contains other types: for each ast type with a field of type Type or []Type (OptionalType, UnionType, ArrayType, GenericType; FunctionType and FutureType excepted - request and response data hold no functions or futures) the checker's code has an assertion / switch arm on that kind from whose taken edge a recursive CheckType call (or the object validator) is reachable. A kind that is only compared by runtime type lets any object pass for `Addr?` / `Addr | str` and any array for List[str] without looking inside")
+	if ct := c.mustFn("C07-R13", interpPkg, "TypeChecker.CheckType"); ct != nil {
+		astp := c.Pkgs[modPath+"/pkg/ast"]
+		var kinds []string
+		if astp != nil {
+			typeIface, _ := astp.Types.Scope().Lookup("Type").(*types.TypeName)
+			sc := astp.Types.Scope()
+			for _, nm := range sc.Names() {
+				tn, ok := sc.Lookup(nm).(*types.TypeName)
+				if !ok || typeIface == nil {
+					continue
+				}
+				st, ok := tn.Type().Underlying().(*types.Struct)
+				if !ok {
+					continue
+				}
+				it, _ := typeIface.Type().Underlying().(*types.Interface)
+				if it == nil || !(types.Implements(tn.Type(), it) || types.Implements(types.NewPointer(tn.Type()), it)) {
+					continue
+				}
+				contains := false
+				for i := 0; i < st.NumFields(); i++ {
+					ft := st.Field(i).Type()
+					if types.Identical(ft, typeIface.Type()) {
+						contains = true
+					}
+					if sl, ok := ft.Underlying().(*types.Slice); ok && types.Identical(sl.Elem(), typeIface.Type()) {
+						contains = true
+					}
+				}
+				if contains && nm != "FunctionType" && nm != "FutureType" { // neither has a representation in request or response data
+					kinds = append(kinds, nm)
+				}
+			}
+		}
+		sort.Strings(kinds)
+		for _, k := range kinds {
+			found := false
+			for _, fn := range []*ssa.Function{ct} {
+				eachInstr(fn, func(_ *ssa.BasicBlock, _ int, ins ssa.Instruction) {
+					ta, ok := ins.(*ssa.TypeAssert)
+					if !ok || !ta.CommaOk {
+						return
+					}
+					nt := namedOf(ta.AssertedType)
+					if nt == nil || nt.Obj().Name() != k {
+						return
+					}
+					if !derivesFrom(ta.X, func(v ssa.Value) bool { return v == ssa.Value(ct.Params[2]) }) {
+						return
+					}
+					for _, okv := range extractOf(ta, 1) {
+						for _, b := range fn.Blocks {
+							for si, succ := range b.Succs {
+								if known, val := boolOnEdge(b, si, okv); known && val {
+									q := &pathQuery{fn: fn, target: func(x ssa.Instruction) bool {
+										return isCallTo(x, interpPath+".TypeChecker.CheckType", interpPath+".TypeChecker.ValidateObjectAgainstTypeDef")
+									}}
+									if h, _ := q.from(succ, 0); h != nil {
+										found = true
+									}
+								}
+							}
+						}
+					}
+				})
+			}
+			c.ob("C07-R13", fnKey(ct)+"#descends-into:"+k, ct.Pos(), found, "CheckType never looks inside a value whose declared type is a "+k+": only the runtime type of the value as a whole is compared, so elements / nested objects / the members of the wrapper are not checked against the declaration")
+		}
+		if len(kinds) < 3 {
+			c.undecided("C07-R13: only %d composite type kinds computed from pkg/ast", len(kinds))
+		}
+	}
 
 	c.rule("C07-R12", "MEMO: where the validators (ValidateObjectAgainstTypeDef, CheckType, ApplyTypeDefaults and what they call in pkg/interpreter) remember something in storage that outlives the request (a map or sync.Map held in a TypeChecker/Interpreter field), the key covers what the remembered value was computed from: a value computed from a type definition's Fields is never filed under the definition's Name alone - two definitions with one Name coexist (`import { User as BillingUser }` keeps the original Name), and whichever is validated first would decide how the other's fields are checked")
 	{
